@@ -228,6 +228,30 @@ func corpus(tier string) ([]History, []string) {
 		Op{K: "destroy", E: 0, Force: true, Keep: true},
 		Op{K: "finish", E: 1, Spec: &Spec{Hosts: []int{2}, Reuse: true, Roles: []Role{plain(1, true), shared(0, 3, false)}}},
 		Op{K: "cleanup"})
+	// seeded change C04-5: a cleanup must not act on a list of unlocked tasks it computed before it waited.
+	// A kill request for an unowned task is held in the master (KillTasks keeps its mutex); a cleanup runs;
+	// a task whose executor had failed is locked again by a TASK_RUNNING update; the kill request ends.
+	add("cleanup-behind-held-kill",
+		cr(0, []int{0}, plain(0, true), plain(1, false)),
+		cr(1, []int{2}, plain(2, true)),
+		Op{K: "destroy", E: 1, Keep: true},
+		Op{K: "xfail", T: tidOf(0, 1)},
+		Op{K: "killhold", Ids: []int{tidOf(1, 0)}},
+		Op{K: "relock", T: tidOf(0, 1)},
+		Op{K: "release"},
+		Op{K: "control", E: 0, Ev: 2},
+		Op{K: "destroy", E: 0, Allow: true})
+	add("cleanup-waits-relock-in-between",
+		cr(0, []int{0}, plain(0, true), plain(1, false), plain(1, false)),
+		cr(1, []int{2}, plain(2, true), plain(3, false)),
+		Op{K: "destroy", E: 1, Keep: true},
+		Op{K: "xfail", T: tidOf(0, 1)},
+		Op{K: "killhold", Ids: []int{tidOf(1, 0)}},
+		Op{K: "cleanup"},
+		Op{K: "relock", T: tidOf(0, 1)},
+		Op{K: "release"},
+		Op{K: "cleanup"},
+		Op{K: "destroy", E: 0})
 	add("create-undeployable",
 		Op{K: "create", E: 0, Spec: &Spec{Hosts: []int{0}, Fail: 4, Roles: []Role{plain(0, true)}}},
 		cr(1, []int{0}, plain(0, true)))
